@@ -131,18 +131,20 @@ func parseValue(d *jx.Decoder) (pcommon.Value, bool, error) {
 		if err != nil {
 			return val, false, err
 		}
+		// A number that does not fit is still a valid JSON value: keep its text
+		// instead of rejecting the whole line.
 		if num.IsInt() {
-			n, err := num.Int64()
-			if err != nil {
-				return val, false, err
+			if n, err := num.Int64(); err == nil {
+				val = pcommon.NewValueInt(n)
+			} else {
+				val = pcommon.NewValueStr(num.String())
 			}
-			val = pcommon.NewValueInt(n)
 		} else {
-			n, err := num.Float64()
-			if err != nil {
-				return val, false, err
+			if n, err := num.Float64(); err == nil {
+				val = pcommon.NewValueDouble(n)
+			} else {
+				val = pcommon.NewValueStr(num.String())
 			}
-			val = pcommon.NewValueDouble(n)
 		}
 	case jx.Null:
 		err := d.Null()
